@@ -28,7 +28,7 @@ ASSUMPTIONS = [
     'across transpose',
 ]
 ANCHORS = ['Table.sort_order', 'Table.sort', 'Table.align_to', 'Table.transpose', 'Table.update_ids', 'Table.copy', 'natsort']
-REQUIRED = ['result_metadata_edits', 'sort_order', 'sort', 'align_to', 'transpose', 'copy',
+REQUIRED = ['natsort_probes', 'natsort_decimal_checked', 'result_metadata_edits', 'sort_order', 'sort', 'align_to', 'transpose', 'copy',
             'update_ids', 'update_ids_refused', 'align_refused',
             'inverse_roundtrips', 'layout_csc_seen', 'layout_unsorted_seen',
             'objdtype_ids']
@@ -176,7 +176,8 @@ def run_random(ctx, index):
     if tracer:
         spec = gen.tracer_spec(r, r.randint(1, 7), r.randint(1, 7),
                                with_md=r.random() < .7,
-                               id_class=r.choice(gen.ID_CLASSES))
+                               id_class=r.choice(gen.ID_CLASSES + [
+                                   'decimal', 'natsort', 'numeric']))
         spec.type = r.choice(gen.TABLE_TYPES + [None])
     else:
         spec = gen.gen_spec(r, max_n=7, max_m=7)
@@ -244,6 +245,18 @@ def run_random(ctx, index):
                     raise Violation('C06/natsort-order', 'default sort gave '
                                     '%r; case=%r' % (order, desc))
                 ctx.count('natsort_numeric_checked')
+            # ... and of the form <same prefix><number with a fraction>:
+            # natural order compares the numbers
+            mm = [re.fullmatch(r'([A-Za-z_]*)(\d+(?:\.\d+)?)', i)
+                  for i in ids]
+            if all(mm) and len({m.group(1) for m in mm}) == 1 and \
+                    any('.' in m.group(2) for m in mm):
+                vals = [float(re.fullmatch(r'[A-Za-z_]*(\d+(?:\.\d+)?)',
+                                           i).group(1)) for i in order]
+                if len(set(vals)) == len(vals) and vals != sorted(vals):
+                    raise Violation('C06/natsort-order', 'default sort gave '
+                                    '%r; case=%r' % (order, desc))
+                ctx.count('natsort_decimal_checked')
         ctx.count('sort')
         desc['order'] = order
         exp = permuted(spec, order, axis)
@@ -417,3 +430,38 @@ def summarize(counters, extra, tier):
     return {'exhaustive_scope': 'all %d permutations of axes of length 1..4 x '
             '2 axes x %d layout recipes x metadata on/off' %
             (len(_PERMS), len(_RECIPES))}
+
+
+def stress(ctx):
+    """Fixed probes of the default (natural) order: numbers inside ids
+    compare as numbers, with and without fractional parts, on both axes."""
+    r = ctx.rng('stress')
+    pools = [
+        ['0.125', '0.13', '7.250', '7.26', '1.10', '1.9', '12.50', '12.6',
+         '3', '10', '2.05', '2.5', '0.5', '0.05', '100.001', '100.01',
+         '9.99', '9.9', '1.25', '1.3'],
+        ['1', '2', '10', '20', '100', '9', '11', '101', '19', '3'],
+    ]
+    for pool in pools:
+        for pre in ('', 'd', 'sample_'):
+            for axis in ('sample', 'observation'):
+                ids = [pre + p for p in pool]
+                r.shuffle(ids)
+                V = np.arange(len(ids) * 2, dtype=float).reshape(
+                    len(ids), 2) + 1
+                spec = gen.Spec(ids if axis == 'observation' else ['a', 'b'],
+                                ['a', 'b'] if axis == 'observation' else ids,
+                                V if axis == 'observation' else V.T)
+                t = gen.build(ctx.biom, spec, 'dense')
+                res = t.sort(axis=axis)
+                order = [str(i) for i in res.ids(axis=axis)]
+                want = sorted(ids, key=lambda i: float(i[len(pre):]))
+                desc = {'probe': 'natural order', 'ids': ids, 'axis': axis}
+                if order != want:
+                    raise Violation('C06/natsort-order', 'default sort gave '
+                                    '%r, the numbers order as %r; case=%r' %
+                                    (order, want, desc))
+                oracles.check_against_spec(res, permuted(spec, order, axis),
+                                           'C06/sort', desc)
+                ctx.count('natsort_probes')
+                ctx.case(desc, True)
